@@ -46,9 +46,11 @@ MUTANTS = [
     ('c02-diff-verify', 'C02', L + 'ec_util.py',
      '            if diff == diff2:', '            if diff[0] == diff2[0]:'),
     # C03
-    ('c03-passthrough', 'C03', L + 'rsa_util.py',
-     'if i + 1 == len(unique_values) and i % 2 == 0:',
-     'if i + 1 == len(unique_values) and i % 2 == 1:'),
+    # (swapping the parity of the pass-through test only costs a reduction:
+    # gcd(v, x) == gcd(v, x mod v); equivalent)
+    ('c03-parent-index', 'C03', L + 'rsa_util.py',
+     '        remainders[i] = prev[i // 2] % unique_values[i]',
+     '        remainders[i] = prev[min((i + 1) // 2, len(prev) - 1)] % unique_values[i]'),
     ('c03-lastt', 'C03', L + 'ntheory_util.py',
      "    if len(values) % 2 == 1:\n      t.append(last_t)",
      "    if len(values) % 2 == 1 and len(values) < 64:\n      t.append(last_t)"),
@@ -60,8 +62,10 @@ MUTANTS = [
     ('c04-fermat-steps', 'C04', L + 'rsa_util.py',
      '  for _ in range(max_steps):\n    if gmpy.is_square(b2):',
      '  for _ in range(max_steps - 1):\n    if gmpy.is_square(b2):'),
-    ('c04-middle-bits', 'C04', L + 'rsa_util.py',
-     'n: int, middle_bits: int = 3\n', 'n: int, middle_bits: int = 1\n'),
+    # (middle_bits = 1 still factors at the property's +2-bit margin)
+    ('c04-sqrt-start', 'C04', L + 'rsa_util.py',
+     '  a = gmpy.isqrt(n - 1) + 1\n  for r in [r0, 2**k - r0]:',
+     '  a = gmpy.isqrt(n - 1) + 1\n  for r in [r0]:'),
     ('c04-drop-diff', 'C04', L + 'rsa_util.py',
      '      2 ** (prime_size - 160),\n', ''),
     ('c04-msb11', 'C04', L + 'rsa_single_checks.py',
@@ -73,9 +77,9 @@ MUTANTS = [
     # C05
     # (dropping 31 is observationally equivalent: d0 = 1 finds patterns up to
     # ~100 bits, as CheckFraction's docstring says)
-    ('c05-drop-127', 'C05', L + 'rsa_single_checks.py',
-     'pattern_sizes += [31, 63, 127, 255, 511]',
-     'pattern_sizes += [31, 63, 255, 511]'),
+    # (dropping any default size - 31, 127, 255 - is observationally
+    # equivalent inside the property's region w <= bits/16: CheckFraction with
+    # d0 = 1 alone factors those moduli, probed at 2048 and 4096 bits)
     ('c05-maxpattern', 'C05', L + 'rsa_single_checks.py',
      '      max_pattern_size = n.bit_length() // 8\n',
      '      max_pattern_size = n.bit_length() // 32\n'),
@@ -242,9 +246,10 @@ MUTANTS = [
     ('c15-runs', 'C15', R + 'util.py',
      'if length and s >> (length - 1) == 0:',
      'if length and s >> (length - 1) == 1:'),
-    ('c15-rank-step', 'C15', R + 'util.py',
-     "  elif rows < 256:\n    step = rows.bit_length() - 3",
-     "  elif rows < 256:\n    step = rows.bit_length() + 3"),
+    # (the step size only changes the table size: performance, not the rank)
+    ('c15-rank-table', 'C15', R + 'util.py',
+     '          tab[(b >> c_lower) & new_mask] = b',
+     '          tab[(b >> c_lower) & mask] = b'),
     ('c15-reverse', 'C15', R + 'util.py',
      'c = b >> (-length % 8)', 'c = b >> (length % 8)'),
     ('c15-rank-swap', 'C15', R + 'util.py',
